@@ -187,6 +187,8 @@ pub struct Rig<const N: usize> {
     pub next_id: u64,
     /// the device scribbles over driver-written areas: do not compare device-visible snapshots
     pub quiet_visible: bool,
+    /// the device of this history follows the protocol (false in the adversarial histories of C07)
+    pub honest: bool,
 }
 
 pub fn enc_qevents(evs: &[Ev], head: u128) -> Vec<u128> {
@@ -239,7 +241,7 @@ impl<const N: usize> Rig<N> {
         }
         C02.with(|c| *c.borrow_mut() = Some(C02State { a, start, cursor_seq: 0, entries: vec![], inprogress: None, next_seq: 0, checks: 0, violations: vec![] }));
         Some(Rig { q, t, st, a, indirect, event_idx, avail_idx: start, last_used: start, dev_used_idx: start,
-            subs: vec![], used_order: vec![], next_id: 1, quiet_visible: false })
+            subs: vec![], used_order: vec![], next_id: 1, quiet_visible: false, honest: true })
     }
 
     pub fn used_view(&self) -> (u16, u32, u32) {
@@ -412,6 +414,13 @@ impl<const N: usize> Rig<N> {
             let same = *sb == self.q.verif_snapshot();
             ctx.tr.line(159, &[same as u128, evs.len() as u128], &[1]);
         }
+        if !lenient {
+            // C03 (kind 161): a completion the device has published at the driver's cursor for exactly this
+            // submission is consumed by a pop that presents its token and its buffers.
+            // ins: [pending at the cursor; the used element names the token; the submission is the token's; consumed]
+            let pending = ui != self.last_used;
+            ctx.tr.line(161, &[pending as u128, (uid == token as u32) as u128, (self.subs[k].token == token) as u128, ok as u128], &[1]);
+        }
         ctx.tr.note(match &r { Ok(Ok(_)) => "pop_ok", Ok(Err(virtio_drivers::Error::NotReady)) => "pop_notready",
             Ok(Err(virtio_drivers::Error::WrongToken)) => "pop_wrongtoken", Ok(Err(_)) => "pop_err", Err(_) => "pop_panic" });
         // C04 data monitor (kind 152): writable buffers hold the device's bytes exactly after a successful pop,
@@ -448,6 +457,12 @@ impl<const N: usize> Rig<N> {
         let pk = self.q.peek_used();
         ctx.tr.line(132, &[ui as u128, uid as u128], &match pk { Some(v) => [1, v as u128], None => [0, 0] });
         ctx.tr.line(133, &[], &[self.q.available_desc() as u128]);
+        if self.honest {
+            // C03 (kind 162): what the device has published and the driver has not consumed is visible to the
+            // driver's queries: can_pop iff something is pending, peek_used names the element at the cursor
+            let pending = ui != self.last_used;
+            ctx.tr.line(162, &[pending as u128, uid as u128, self.q.can_pop() as u128, pk.is_some() as u128, pk.unwrap_or(0) as u128], &[1]);
+        }
     }
 
     pub fn set_dev_notify(&mut self, ctx: &mut Ctx, en: bool) {
